@@ -13,6 +13,7 @@ package slog
 //@   ensures [C07.cmp-nil] implies(isnil(a) && isnil(b), result == 0) && implies(isnil(a) && !isnil(b), result == -1) && implies(!isnil(a) && isnil(b), result == 1)
 //@   ensures [C07.cmp-key] implies(!isnil(a) && !isnil(b), (result == -1) == (k1 < k2) && implies(!(k1 < k2), (result == 0) == (k1 == k2)) && -1 <= result && result <= 1)
 //@   at call (Attr).Key assert [C07.cmp-args] callee.self == a || callee.self == b
+//@   ensures [C07.cmp-own-keys] implies(!isnil(a) && !isnil(b), same(k1, ghost.ioKey2) && same(k2, ghost.ioKey1))
 
 // the equivalence dedupeSlice collapses: equal keys (nil only equals nil)
 //@ func serializeAttrs$2
@@ -20,3 +21,4 @@ package slog
 //@   assigns nothing
 //@   ensures [C07.eq-nil] implies(isnil(a) || isnil(b), result == (isnil(a) && isnil(b)))
 //@   at call (Attr).Key assert [C07.eq-args] callee.self == a || callee.self == b
+//@   ensures [C07.eq-keys] implies(!isnil(a) && !isnil(b), result == (ghost.ioKey2 == ghost.ioKey1))
